@@ -248,7 +248,7 @@ def define_handler_units():
     c.raises = {"PathIOError": [], "CancelledError": [], "Exception": []}
     for verb, meth in VERBS.items():
         for mode in ("SEQ",):
-            c = contract(SERVER, f"Server.{meth}", props=["C03", "C04", "C05", "C11", "C13", "C16", "C17"] + (["C10"] if meth == "user" else []) + (["C14"] if meth == "abor" else []) + (["C20"] if meth == "pass_" else []), name=f"Server.{meth}#{mode}")
+            c = contract(SERVER, f"Server.{meth}", props=["C03", "C04", "C05", "C11", "C13", "C16", "C17"] + (["C10"] if meth == "user" else []) + (["C14"] if meth == "abor" else []) + (["C20"] if meth == "pass_" else []) + (["C08"] if meth == "pwd" else []), name=f"Server.{meth}#{mode}")
             c.setup = make_handler_setup(meth, mode)
             c.uses = [(SERVER, "Server.get_paths"), (SERVER, "User.get_permissions#summary"), (SERVER, "Server._start_passive_server")]
             c.exit_hook = pasv_exit if meth in ("pasv", "epsv") else handler_exit
@@ -347,6 +347,10 @@ def c05_exit(S, outcome):
         ctx.check(f"{name}/exit:230-iff-logged-in-now", tt(b_implies(code == "230", d("logged"))), info=T5)
         if code == "530":
             ctx.check(f"{name}/exit:530-leaves-not-logged-in", tt(b_not(d("logged"))), info=T5)
+    if verb == "pwd" and code == "257":
+        from contracts.c08_names import pwd_reply_quotes_doubled
+
+        ctx.check(f"{name}/exit:257-quotes-the-directory-with-embedded-quotes-doubled", tt(pwd_reply_quotes_doubled(S)), info={"props": ["C08"]})
     if verb in ("cwd", "cdup"):
         ctx.check(f"{name}/exit:cwd-changes-only-on-250", z3.BoolVal(("current_directory" in written) == (code == "250")), info=T5)
     if verb == "rnfr":
